@@ -448,9 +448,32 @@ func retainedJSON(col *Collector, r *RNG, tier string) {
 	}
 }
 
+// emptyJSONValue: a JSON column whose stored value has length 0 (rows that existed before ALTER TABLE ... ADD COLUMN j
+// JSON NOT NULL; INSERT IGNORE of NULL into a NOT NULL JSON column): the master reads it as the JSON document null.
+func emptyJSONValue(col *Collector) {
+	for md := 1; md <= 4; md++ {
+		for _, rest := range [][]byte{nil, {0x01, 0x02, 0x03}} {
+			cell := exact(append(make([]byte, md), rest...))
+			got := implCellBytes(cell, 0, 245, uint16(md), false)
+			want := "ok:" + hx([]byte("'null'")) + ":" + strconv.Itoa(md)
+			ln := implCellLength(cell, 0, 245, uint16(md))
+			ok := got == want && ln == "ok:"+strconv.Itoa(md)
+			note := ""
+			if !ok {
+				note = fmt.Sprintf("a zero-length JSON value (%d length bytes) decodes to %s / length %s, want the document null ('null') and length %d", md, clip(got, 60), ln, md)
+			}
+			col.AddScenario("json-empty-value", fmt.Sprintf("clenbytes t=245 md=%d u=0 pos=0 b=%s", md, hx(cell)), true, ok, true, note, "json-empty-value", got, want)
+		}
+	}
+}
+
 func init() {
 	register(&Property{ID: "C14", Gen: genC14,
-		Extra: func(c *Collector, r *RNG, tier string) { specVectors(c, "jdoc "); retainedJSON(c, r, tier) },
+		Extra: func(c *Collector, r *RNG, tier string) {
+			specVectors(c, "jdoc ")
+			retainedJSON(c, r, tier)
+			emptyJSONValue(c)
+		},
 		Replay: func(line string) []Case {
 			f := fields(line)
 			var e []string
